@@ -54,3 +54,28 @@ package types
 //@ func (t Tunnel) GetSignalIDs
 //@ ensures len(result) == len(t.SignalDeviations) && (forall j :: 0 <= j && j < len(result) ==> result[j] == t.SignalDeviations[j].SignalID)
 //@ loop 0: invariant len(signalIDs) == #i && (forall j :: 0 <= j && j < #i ==> signalIDs[j] == t.SignalDeviations[j].SignalID)
+
+// ---- C17: genesis --------------------------------------------------------------------------------------------------
+// total of the deposits recorded for one tunnel (coins added up in list order)
+//@ spec depSum(ds []Deposit, id Int, n Int) sdk.Coins = n <= 0 ? zero("sdk.Coins") : (ds[n-1].TunnelID == id ? ext("Coins.Add", depSum(ds, id, n - 1), ds[n-1].Amount) : depSum(ds, id, n - 1))
+// a genesis state is accepted only if EVERY tunnel's total deposit equals the sum of the deposit records made to it -
+// including tunnels that have no deposit record at all (their total must then be zero)
+//@ func ValidateGenesis
+//@ ensures err == nil ==> (forall j :: 0 <= j && j < len(data.Tunnels) ==> ext("Coins.Equal", data.Tunnels[j].TotalDeposit, depSum(data.Deposits, data.Tunnels[j].ID, len(data.Deposits))))
+//@ loop 0: invariant true
+//@ loop 1: invariant forall id Int :: (has(tunnelDeposit, id) ? tunnelDeposit[id] : zero("sdk.Coins")) == depSum(data.Deposits, id, #i)
+//@ loop 2: invariant forall j :: 0 <= j && j < #i ==> ext("Coins.Equal", data.Tunnels[j].TotalDeposit, depSum(data.Deposits, data.Tunnels[j].ID, len(data.Deposits)))
+//@ func (k AccountKeeper) GetModuleAccount
+//@ trusted
+//@ func (k AccountKeeper) SetModuleAccount
+//@ trusted
+//@ modifies Other
+
+// ---- C11: what the group signs for a tunnel packet -------------------------------------------------------------------
+// the payload is packed only from prices that were converted WITHOUT error (a signal id that does not fit bytes32 makes
+// the conversion fail: then there is nothing to sign - never a well-formed payload with the prices left out), with the
+// packet's own sequence number and creation time, behind the encoder's prefix
+//@ func EncodeTSS
+//@ assert after tssPacket: err == nil && tssPacket.Sequence == sequence && tssPacket.CreatedAt == createdAt
+//@ assert after tssPacket#2: err == nil && tssPacket.Sequence == sequence && tssPacket.CreatedAt == createdAt
+//@ ensures err == nil ==> (encoder == feedstypes.ENCODER_FIXED_POINT_ABI || encoder == feedstypes.ENCODER_TICK_ABI)
